@@ -1070,7 +1070,8 @@ struct ScopedExprBuilder : ExpressionBuilder
 
 #include "actions.h"
 
-inline void run_step(JW& j, const Step& st, std::unique_ptr<Document>& doc_out, const std::string& workdir, int idx)
+inline void run_step(JW& j, const Step& st, std::shared_ptr<Document>& doc_out, const std::string& workdir, int idx,
+                     const std::vector<std::shared_ptr<Document>>& earlier)
 {
     const std::string entry = st.get("entry", "xml-buffer");
     const std::string builder = st.get("builder", "document");
@@ -1079,7 +1080,18 @@ inline void run_step(JW& j, const Step& st, std::unique_ptr<Document>& doc_out, 
     const std::string dump = st.get("dump", "doc,diag,inv,methods");
     auto wants = [&](const char* w) { return ("," + dump + ",").find(std::string(",") + w + ",") != std::string::npos; };
 
-    auto doc = std::make_unique<Document>();
+    std::shared_ptr<Document> doc;
+    if (st.has("reuse")) {
+        // C15: a client parses a model once and then parses queries / blocks against the document it kept
+        size_t k = (size_t)atoi(st.get("reuse").c_str());
+        if (k < earlier.size() && earlier[k]) {
+            doc = earlier[k];
+            doc->clear_errors();
+            doc->clear_warnings();
+        }
+    }
+    if (!doc)
+        doc = std::make_shared<Document>();
     if (st.has("base")) {
         try {
             parse_XML_buffer(st.get("base").c_str(), doc.get(), true);
@@ -1277,12 +1289,12 @@ inline std::string run_request(const std::vector<std::pair<std::string, std::str
     JW j;
     j.o();
     j.k("steps").a();
-    std::vector<std::unique_ptr<Document>> keep;  // documents are caller-owned and survive (C15: they stay alive)
+    std::vector<std::shared_ptr<Document>> keep;  // documents are caller-owned and survive (C15: they stay alive)
     int idx = 0;
     for (auto& st : steps) {
         j.o();
-        std::unique_ptr<Document> d;
-        run_step(j, st, d, workdir, idx++);
+        std::shared_ptr<Document> d;
+        run_step(j, st, d, workdir, idx++, keep);
         keep.push_back(std::move(d));
         j.e();
     }
